@@ -298,6 +298,36 @@ fn faults_for(mode: Mode, tier: Tier, seed: u64, img: &ImageInfo) -> Vec<Fault> 
                 });
             }
         }
+        // paired damage: a byte of the checked range together with the kind byte of the pack's
+        // check block (blake3 -> "no check"): the check block's own CRC must catch the second one
+        if mode != Mode::C06 {
+            for span in &img.spans[fi] {
+                if span.kind == b'C' {
+                    continue;
+                }
+                let lo = span.start + 128;
+                let hi = span.start + span.check_info_pos;
+                if hi <= lo {
+                    continue;
+                }
+                let kind_byte = span.start + span.check_info_pos;
+                let n = if small { 48 } else { 16 };
+                for _ in 0..n {
+                    out.push(Fault::Multi(vec![
+                        Fault::Flip {
+                            file: fi,
+                            pos: rng.range(lo, hi - 1),
+                            mask: *rng.pick(&[0x01u8, 0x20, 0xFF]),
+                        },
+                        Fault::Flip {
+                            file: fi,
+                            pos: kind_byte,
+                            mask: 0x01,
+                        },
+                    ]));
+                }
+            }
+        }
         // whole-sector damage (lost or torn 512-byte sector): zeroed and garbage, every sector of
         // a small file, a seeded sample of a large one
         if mode != Mode::C04 {
@@ -1095,6 +1125,7 @@ fn c04_attribution(img: &ImageInfo, fault: &Fault) -> (bool, String) {
         Fault::Zero { file, pos, len } | Fault::Overwrite { file, pos, len, .. } => {
             (*file, *pos, *pos + *len)
         }
+        Fault::Multi(v) if !v.is_empty() => return c04_attribution(img, &v[0]),
         _ => return (false, String::new()),
     };
     let mut pack = String::new();
